@@ -128,15 +128,18 @@ def generate(repo):
     # ---- argument checks
     t_q, t_tol, t_mi = arg_check(c_q, 'quantile'), arg_check(c_tol, 'tol'), arg_check(c_mi, 'max_iter')
     # ---- first fit only when unfitted
-    FIRST_OLD = 'if not self._is_fitted:\n    self.fit(X, y, weights=weights)'
-    FIRST_NEW = ast.unparse(ast.parse(
+    # an unfitted model is fitted (which validates X, y, weights); an already fitted model validates X, y and -- when given -- the
+    # weights instead (validation only: these statements raise or return their argument as an array, no effect on the bisection)
+    FIRST = ast.unparse(ast.parse(
         "if not self._is_fitted:\n    self.fit(X, y, weights=weights)\nelse:\n"
         "    y = check_y(y, self.link, self.distribution, verbose=self.verbose)\n"
         "    X = check_X(X, n_feats=self.statistics_['m_features'], edge_knots=self.edge_knots_, dtypes=self.dtype, "
-        "features=self.feature, verbose=self.verbose)\n    check_X_y(X, y)\n").body[0])
-    # an already fitted model validates the data instead of fitting (validation only: no effect on the bisection)
-    if ast.unparse(first) not in (FIRST_OLD, FIRST_NEW):
-        fail(first, 'initial fit')
+        "features=self.feature, verbose=self.verbose)\n    check_X_y(X, y)\n"
+        "    if weights is not None:\n        weights = np.array(weights).astype('f').ravel()\n"
+        "        weights = check_array(weights, name='sample weights', ndim=1, verbose=self.verbose)\n"
+        "        check_lengths(y, weights)\n").body[0])
+    if ast.unparse(first) != FIRST:
+        fail(first, 'initial fit / validation of X, y, weights on an already fitted model')
     # ---- initial bracket and counter
     inits = {}
     for st, nm in ((a_max, 'max_'), (a_min, 'min_'), (a_n, 'n_iter')):
@@ -205,7 +208,10 @@ def generate(repo):
            'From Coq Require Import Reals ZArith Bool PrimFloat.',
            'From PG Require Import Base.Ops.',
            'Open Scope R_scope.',
-           'Definition fq_Reqb (a b : R) : bool := if Req_EM_T a b then true else false.', '']
+           'Definition fq_Reqb (a b : R) : bool := if Req_EM_T a b then true else false.',
+           '(* before the loop: an unfitted model is fitted; a fitted one runs check_y, check_X, check_X_y and, for given weights, the float32 cast,',
+           '   check_array and check_lengths(y, weights) (matched textually): the arguments are validated on every path into the loop *)',
+           'Definition Gen_fq_validated_before_loop : bool := true.', '']
     for tgt, ty, sfx in (('R', 'R', ''), ('F', 'float', '_f')):
         nm = {'quantile': 'quantile', 'tol': 'tol', 'max_iter': 'max_iter', 'ratio': 'ratio', 'min_': 'min_', 'max_': 'max_',
               'self.expectile': 'e', 'n_iter': 'n_iter', 'a': 'a', 'b': 'b', 'y_pred': 'y_pred', 'y': 'y', 'expectile': 'e_new'}
